@@ -242,7 +242,17 @@ pub fn out_plan(r: &mut Rng, sid: usize, msvc: bool, hidden: &[String]) -> (Vec<
     }
     if msvc {
         let unterminated_last = lines.last().map(|l| !l.0.ends_with(b"\n")).unwrap_or(false);
+        let many = hidden.len() > 2000;
+        if many {
+            // big shapes: plain lines in front, no quadratic inserts
+            let mut pre: Vec<(Vec<u8>, bool)> = hidden.iter().map(|h| (format!("Note: including file: {}\n", h).into_bytes(), true)).collect();
+            pre.extend(lines.drain(..));
+            lines = pre;
+        }
         for h in hidden {
+            if many {
+                break;
+            }
             let max_pos = if unterminated_last { lines.len() - 1 } else { lines.len() };
             let pos = r.below(max_pos + 1);
             let sp = match r.below(6) {
@@ -380,6 +390,10 @@ impl Host for SimHost {
         let mut sh = self.sh.borrow_mut();
         sh.points += 1;
         let n = sh.points;
+        if n > 400_000 {
+            drop(sh);
+            panic!("SIM: shim-call budget exceeded: n2 does not terminate");
+        }
         if op == IoOp::Open && canon(path) == sh.model.disk.manifest {
             sh.manifest_opens += 1;
             if sh.manifest_opens > 1 {
@@ -626,9 +640,12 @@ impl Host for SimHost {
         }
     }
 
-    fn on_update(&mut self, c: [usize; 6]) {
+    fn on_update(&mut self, c: [usize; 6], total: usize) {
         let mut sh = self.sh.borrow_mut();
         sh.finalize_pending();
+        if total != c.iter().sum::<usize>() {
+            sh.viol.push(viol("C19", "total-vs-states", format!("reported total {} but the per-state counts {:?} add up to {}", total, c, c.iter().sum::<usize>())));
+        }
         sh.ev.push(Ev::Update(c));
     }
 
@@ -702,6 +719,10 @@ impl Host for SimHost {
                 let deps = Model::deps_to_record(&mem, si, &rep);
                 for o in &mem.steps[si].outs {
                     sh.model.taint.remove(o);
+                }
+                sh.model.norecord_dep_missing.remove(&sid);
+                if deps.iter().any(|d| !disk::exists(d)) {
+                    sh.model.norecord_dep_missing.insert(sid);
                 }
                 if let Some(sig) = sh.model.sig_now(&mem, si, &deps) {
                     for n in mem.steps[si].outs.iter().chain(deps.iter()) {
@@ -777,7 +798,14 @@ impl SimHost {
             .iter()
             .map(|h| (h.clone(), disk::read_str(h).unwrap_or_else(|| "MISSING".into())))
             .collect();
-        let (chunks, expected) = out_plan(&mut r, sid, s.depmode == 2, &hidden);
+        // what the command reports: the files it read plus (-MG style) missing soft includes
+        let mut reported = hidden.clone();
+        let miss = mem.reported_missing(s, &|n| disk::exists(n));
+        if !miss.is_empty() {
+            sh.stats.bump("probe.reported_dependency_missing");
+        }
+        reported.extend(miss);
+        let (chunks, expected) = out_plan(&mut r, sid, s.depmode == 2, &reported);
         for c in &chunks {
             out(c);
         }
@@ -803,12 +831,15 @@ impl SimHost {
                 .min(sh.model.variants.len().saturating_sub(1));
             let mut np = sh.model.variants[v].clone();
             np.srcs = sh.model.disk.srcs.clone();
-            let text = if failing || interrupted { "garbage !!\n".to_string() } else { np.render().files[0].1.clone() };
-            let same = disk::read_str(&mem.manifest).as_deref() == Some(&text);
-            if !(s.restat && same) {
-                disk::write_with_dirs(&mem.manifest, text.as_bytes())?;
+            for (name, text) in np.render().files.iter() {
+                let same = disk::read_str(name).as_deref() == Some(text.as_str());
+                if s.restat && same {
+                    sh.stats.bump("probe.generator_kept_unchanged_file");
+                    continue;
+                }
+                disk::write_with_dirs(name, text.as_bytes())?;
                 let t = sh.model.next_tick();
-                disk::set_mtime(&mem.manifest, t);
+                disk::set_mtime(name, t);
             }
             if !(failing || interrupted) {
                 sh.model.disk = np;
@@ -844,13 +875,13 @@ impl SimHost {
                 sh.stats.bump("fault.garbage_depfile");
                 return Ok(Termination::Success);
             }
-            let text = depfile_text(&mut r, &hidden);
+            let text = depfile_text(&mut r, &reported);
             disk::write_with_dirs(&p, text.as_bytes())?;
             let t = sh.model.next_tick();
             disk::set_mtime(&p, t);
         }
         if s.depmode != 0 {
-            sh.reported.insert(sid, Some(hidden.clone()));
+            sh.reported.insert(sid, Some(reported.clone()));
         } else {
             sh.reported.insert(sid, None);
         }
